@@ -372,6 +372,31 @@ func main() {
 	fmt.Fprintf(&L, "]\n\ndef modelCount : Nat := %d\n\nend Ndn.Gen.C13\n", len(ms))
 	writeIfChanged(filepath.Join(*verif, "lean/NdnVerif/Gen/C13Schemas.lean"), L.Bytes())
 
+	// ---------------------------------------------------------------- facts of the decoder templates
+	// GenNaturalNumberDecode (std/encoding/codegen/utils.go): does the template of natural / time fields refuse a
+	// length other than 1, 2, 4 or 8 (repair F-13e)?  The checked-in generated code IS this template's output
+	// (op regen compares them byte for byte on every run), so the template decides for all 79 models.
+	tsrc, err := os.ReadFile(filepath.Join(*repo, "std/encoding/codegen/utils.go"))
+	if err != nil {
+		fmt.Fprintln(os.Stderr, "schemagen: cannot read std/encoding/codegen/utils.go:", err)
+		os.Exit(1)
+	}
+	ti := bytes.Index(tsrc, []byte("func GenNaturalNumberDecode("))
+	if ti < 0 {
+		fmt.Fprintln(os.Stderr, "schemagen: func GenNaturalNumberDecode not found in std/encoding/codegen/utils.go")
+		os.Exit(1)
+	}
+	tbody := tsrc[ti:]
+	if te := bytes.Index(tbody[1:], []byte("\nfunc ")); te >= 0 {
+		tbody = tbody[:te+1]
+	}
+	squash := strings.Join(strings.Fields(string(tbody)), " ")
+	checked := strings.Contains(squash, "l != 1 && l != 2 && l != 4 && l != 8")
+	var F bytes.Buffer
+	fmt.Fprintf(&F, "/- GENERATED by harness/cmd/schemagen from the working tree on every check run — do not edit.\n   source: std/encoding/codegen/utils.go GenNaturalNumberDecode -/\nnamespace Ndn.Gen.C13\n\n")
+	fmt.Fprintf(&F, "/-- the decoder template of natural and time fields refuses a length other than 1, 2, 4 or 8 -/\ndef naturalWidthChecked : Bool := %s\n\nend Ndn.Gen.C13\n", lb(checked))
+	writeIfChanged(filepath.Join(*verif, "lean/NdnVerif/Gen/C13Facts.lean"), F.Bytes())
+
 	// ---------------------------------------------------------------- Go registry
 	var G bytes.Buffer
 	fmt.Fprintf(&G, "// Code generated by harness/cmd/schemagen from the working tree on every check run; DO NOT EDIT.\n\npackage c13\n\nimport (\n\tenc \"github.com/named-data/ndnd/std/encoding\"\n")
